@@ -75,6 +75,9 @@ NEEDED = {
  'C07-11': 'bankruptcy cases with the entitled key named in the signer slot but not signing',
  'C07-12': 'bankruptcy cases where the account owes a second bank as well',
  'C08-10': 'golden call of collect_bank_fees after the global fee wallet was rotated (group cache stale); the previous wallet\'s token account as a substitute (C19 caught it as it stood)',
+ 'C08-11': 'C10: debt bank flagged for token-less repayment in the bracket grid (incl. a sub-$5 account, where a full repayment may commit) and the rule that a bank\'s vault takes in what the debt fell by',
+ 'C09-10': 'decision-matrix scenes with a configured maximum oracle age of 30 s (below the program\'s 60 s default for Pyth)',
+ 'C09-12': 'venue sweep: the configured reserve / market replaced by an account of the same venue program with the same bytes at another address',
  'C20-7': 'reserve-composition sweep: total liquidity = available + borrowed - fees with fees above the borrowed amount, fractional parts, through the real Kamino / Solend total-liquidity functions and conversions',
  'C08-7': '(caught by the sibling check C10: two start instructions in one transaction)',
  'C08-8': "C12 'nobody' cells: the permissionless staked-settings propagation aimed at ordinary banks",
